@@ -96,7 +96,7 @@ func c01Generate(r *rand.Rand, long bool) c01Scenario {
 			// more blocks announced at once than the request window holds, and before they are
 			// all downloaded the peer reorganises from a block the node has requested
 			sc.Steps = append(sc.Steps, c01Step{Op: "settle"}, c01Step{Op: "extend", N: 11 + r.Intn(12)},
-				c01Step{Op: "partial", N: 1 + r.Intn(8)}, c01Step{Op: "forkwindow", N: 1 + r.Intn(3)}, c01Step{Op: "settle"})
+				c01Step{Op: "partial", N: 1 + r.Intn(8)}, c01Step{Op: "forkwindow", N: 1 + r.Intn(3), D: r.Intn(2)}, c01Step{Op: "settle"})
 		case k < 20:
 			// back to an abandoned branch that has grown longer
 			sc.Steps = append(sc.Steps, c01Step{Op: "revive", N: 1 + r.Intn(3)})
@@ -206,9 +206,20 @@ func c01RunHook(r *rand.Rand, sc c01Scenario, probeEvery bool, setup func(*dsSim
 		case "forkwindow":
 			// fork at a block the node has requested and not yet processed
 			var cands []*verifkit.Block
-			for _, rq := range s.e.node.state.VerifQueue().Requested {
+			q := s.e.node.state.VerifQueue()
+			for _, rq := range q.Requested {
 				if b := tree.ByHash[rq.Hash]; b != nil && b != peer.tip && b.IsAncestorOf(peer.tip) {
 					cands = append(cands, b)
+				}
+			}
+			// ... or is still waiting to request (behind the window)
+			for _, h := range q.ToRequest {
+				if b := tree.ByHash[h]; b != nil && b != peer.tip && b.IsAncestorOf(peer.tip) {
+					cands = append(cands, b)
+					if st.D == 1 {
+						cands = []*verifkit.Block{b} // this step insists on a fork behind the window
+						break
+					}
 				}
 			}
 			base := peer.tip.Parent
@@ -227,6 +238,7 @@ func c01RunHook(r *rand.Rand, sc c01Scenario, probeEvery bool, setup func(*dsSim
 			peer.tip = nt
 			s.chainChanged()
 			if len(cands) > 0 {
+				s.forkExpect = append(s.forkExpect, nt.Ancestor(base.Height+1))
 				if a := peer.announce(); len(a) > 0 {
 					s.overtakeBlocks(a)
 				}
